@@ -53,6 +53,9 @@ type Spec struct {
 	Consts []ConstSpec `json:"consts"`
 	Preds  []PredSpec  `json:"preds"`
 	Skels  []SkelSpec  `json:"skels"`
+
+	// full Lean module names to import (e.g. the Model file that defines a receiver structure)
+	LeanImports []string `json:"lean_imports"`
 }
 
 var fset = token.NewFileSet()
@@ -644,6 +647,9 @@ func genModule(repo string, spec *Spec, outDir string) {
 	cs.WriteString("/- GENERATED from the Go source by /verif/extract on every run. Do not edit. -/\nimport TunnoxModel.Model.PredPrelude\n")
 	for _, im := range spec.Imports {
 		cs.WriteString("import TunnoxModel.Gen." + im + "\n")
+	}
+	for _, im := range spec.LeanImports {
+		cs.WriteString("import " + im + "\n")
 	}
 	cs.WriteString("open Tunnox.PredPrelude\nnamespace Gen\n\n")
 	for _, c := range spec.Consts {
